@@ -113,10 +113,25 @@ def adequate(form, via, sep):
             if v in ('lines', 'split_terminator', "split('\\n')", 'split("\\n")') or v.startswith("replace('\\n'") or v.startswith("split('\\n'"):
                 return True
         return False
+    def neutralises(term):
+        # some replace(term → R) on the path whose replacement text does not itself contain the terminator (R = `\\"""` still
+        # ends the docstring: the back-slash escapes the first quote only) — a non-literal replacement is not judged adequate
+        for v in vs:
+            m = re.match(r"replace\((?P<p>'(?:[^'\\]|\\.)*'|\"(?:[^\"\\]|\\.)*\") → (?P<r>.*)\)$", v, re.S)
+            if not m:
+                continue
+            import ast
+            try:
+                pat, repl = ast.literal_eval(m.group('p')), ast.literal_eval(m.group('r'))
+            except Exception:
+                continue
+            if pat == term and term not in repl and term not in (repl + repl):
+                return True
+        return False
     if form == 'BLOCK':
-        return any(v.startswith("replace('*/'") for v in vs)
+        return neutralises('*/')
     if form == 'DOCSTRING':
-        return any(v.startswith("replace('\"\"\"'") for v in vs)
+        return neutralises('"""')
     return False
 
 
